@@ -108,6 +108,42 @@ def _register_buildable_defaults_aware_traversers(cls: Type[Buildable]):
   )
 
 
+def _same_sharing_structure(x: Any, y: Any) -> bool:
+  """Returns whether two equal-valued structures share objects in the same way.
+
+  Walks `x` and `y` in lockstep (children are matched by path element, so dict
+  and `**kwargs` insertion order does not matter, and unset arguments are
+  matched with explicitly set defaults), and checks that "is the same object"
+  relates positions of `x` exactly as it relates positions of `y`, i.e., that
+  there is a one-to-one correspondence between the objects of `x` and `y`.
+  Internable values (e.g. small ints, strings, tuples of them) are skipped, as
+  they might be equal in value but have different object ids.
+  """
+  registry = _defaults_aware_traverser_registry
+  x_to_y = {}
+  y_to_x = {}
+
+  def visit(a, b) -> bool:
+    if daglish.is_internable(a) or daglish.is_internable(b):
+      return True
+    if id(a) in x_to_y or id(b) in y_to_x:
+      # Seen before: must have been seen together.
+      return x_to_y.get(id(a)) == id(b) and y_to_x.get(id(b)) == id(a)
+    x_to_y[id(a)] = id(b)
+    y_to_x[id(b)] = id(a)
+    a_traverser = registry.find_node_traverser(type(a))
+    b_traverser = registry.find_node_traverser(type(b))
+    if a_traverser is None or b_traverser is None:
+      return True
+    a_children = dict(zip(a_traverser.path_elements(a), a_traverser.flatten(a)[0]))
+    b_children = dict(zip(b_traverser.path_elements(b), b_traverser.flatten(b)[0]))
+    if a_children.keys() != b_children.keys():
+      return False
+    return all(visit(a_children[k], b_children[k]) for k in a_children)
+
+  return visit(x, y)
+
+
 def _compare_buildable(x: Buildable, y: Buildable, check_dag: bool = False):
   """Compare if two Buildables are equal, including DAG structure."""
   assert isinstance(x, Buildable)
@@ -143,37 +179,11 @@ def _compare_buildable(x: Buildable, y: Buildable, check_dag: bool = False):
     if v1 != v2:
       return False
 
-  # Compare the DAG structure.
-  # The DAG stracture comparison must traverse the whole DAG and sort the
-  # result by path, which is expensive. Thus, we compare values first so
-  # that most unequal cases will not reach the expensive DAG compare step.
-  if check_dag:
-    x_elements = list(
-        daglish.iterate(
-            x,
-            memoized=True,
-            # Not to memorize internables during traversal, as they might
-            # be equal in value but have different object ids.
-            memoize_internables=False,
-            registry=_defaults_aware_traverser_registry,
-        )
-    )
-    y_elements = list(
-        daglish.iterate(
-            y,
-            memoized=True,
-            memoize_internables=False,
-            registry=_defaults_aware_traverser_registry,
-        )
-    )
-    x_paths = sorted([elt[1] for elt in x_elements])
-    y_paths = sorted([elt[1] for elt in y_elements])
-
-    if len(x_paths) != len(y_paths):
-      return False
-    for x_path, y_path in zip(x_paths, y_paths):
-      if x_path != y_path:
-        return False
+  # Compare the DAG structure (which objects are shared).
+  # This traverses the whole DAG, which is expensive. Thus, we compare values
+  # first so that most unequal cases will not reach this step.
+  if check_dag and not _same_sharing_structure(x, y):
+    return False
 
   return True
 
